@@ -20,26 +20,25 @@ Proof. reflexivity. Qed.
 Lemma data_fields_known o dm d base : dm_ok dm d -> known_msg (sd_gmn d) = true ->
   forall m1 ref1 s pay dev tl t n lim,
   List.length pay = payload_size d -> List.length dev = sd_devsize d -> all_bytes pay = true ->
-  time_rel (ds_ts s) (ds_lastoff s) ref1 ->
-  fields_time_ok (sd_be d) (sd_gmn d) (sd_fds d) pay ref1 = true ->
+  time_rel (ds_hasts s) (ds_ts s) (ds_lastoff s) ref1 ->
   (o_unkf o = true -> ds_unkf s = base) ->
   (n + List.length pay + List.length dev <= lim)%nat ->
-  exists ts' lo' uf' q',
+  exists hs' ts' lo' uf',
     run_a (parse_data_fields o dm true (Some m1)) (ast_at (pay ++ dev) tl t n lim) s =
       ROk (Some (fst (fst (denote_fields (sd_be d) (sd_gmn d) (sd_fds d) pay m1 ref1 []))))
-          (ast_at [] tl t (n + List.length pay + List.length dev) lim) (st_upd s ts' lo' uf' q') /\
-    time_rel ts' lo' (snd (fst (denote_fields (sd_be d) (sd_gmn d) (sd_fds d) pay m1 ref1 []))) /\
+          (ast_at [] tl t (n + List.length pay + List.length dev) lim) (st_upd s hs' ts' lo' uf') /\
+    time_rel hs' ts' lo' (snd (fst (denote_fields (sd_be d) (sd_gmn d) (sd_fds d) pay m1 ref1 []))) /\
     (o_unkf o = true -> uf' = counts (sd_gmn d) (snd (denote_fields (sd_be d) (sd_gmn d) (sd_fds d) pay m1 ref1 [])) base) /\
     (o_unkf o = false -> uf' = ds_unkf s).
 Proof.
-  intros (Hbe & Hgmn & Hfds & Hdev & Hcompat & Hcanon) Hkn m1 ref1 s pay dev tl t n lim Hlp Hld Hbytes Htime Hok Hunk Hlim.
+  intros (Hbe & Hgmn & Hfds & Hdev & Hcompat & Hcanon) Hkn m1 ref1 s pay dev tl t n lim Hlp Hld Hbytes Htime Hunk Hlim.
   unfold parse_data_fields. rewrite run_bind. rewrite Hfds. rewrite ast_at_app.
   destruct (fields_known o dm (sd_be d) (sd_gmn d) base Hkn Hgmn Hbe (sd_fds d) pay m1 ref1 [] s (dev ++ tl) t n lim
-              Hcompat Hcanon Hlp Hbytes Htime Hok Hunk ltac:(lia))
-    as (ts' & lo' & uf' & q' & Hrun & Ht & Hu1 & Hu2).
+              Hcompat Hcanon Hlp Hbytes Htime Hunk ltac:(lia))
+    as (hs' & ts' & lo' & uf' & Hrun & Ht & Hu1 & Hu2).
   rewrite Hrun. cbn [rbind]. rewrite ast_at_nil_app. rewrite run_bind.
   rewrite skip_dev_ok by (try (rewrite Hdev; exact Hld); lia). cbn [rbind run_a].
-  exists ts', lo', uf', q'. repeat split; auto.
+  exists hs', ts', lo', uf'. repeat split; auto.
 Qed.
 
 Lemma data_fields_unknown o dm d : dm_ok dm d -> known_msg (sd_gmn d) = false ->
@@ -69,29 +68,29 @@ Qed.
 
 (* ------------------------------------------------------------ the invariant after a data record *)
 
-Lemma Inv_data_known o pre fb gb ft s ss ts' lo' uf' q' f' g' m2 ref2 uf2 :
+Lemma Inv_data_known o pre fb gb ft s ss hs' ts' lo' uf' f' g' m2 ref2 uf2 :
   Inv o pre fb gb ft s ss ->
-  time_rel ts' lo' ref2 ->
+  time_rel hs' ts' lo' ref2 ->
   (o_unkf o = true -> uf' = uf2) ->
   file_add (ds_file s) (ds_g s) m2 = AddOk f' g' -> f_inited f' = Some ft ->
-  Inv o pre fb gb ft (with_file (st_upd s ts' lo' uf' q') f' g')
+  Inv o pre fb gb ft (with_file (st_upd s hs' ts' lo' uf') f' g')
       (mk_sstate (ss_env ss) ref2 (ss_msgs ss ++ [m2]) (ss_unkm ss) uf2).
 Proof.
   intros HI Ht Hu Ha Hi. destruct HI as [H1 H2 H3 H4 H5 H6 H7 H8 (ms & Hms & Hadds)].
-  constructor; cbn [with_file st_upd ds_defs ds_ts ds_lastoff ds_unkf ds_unkm ds_file ds_g ss_env ss_ref ss_msgs ss_unkm ss_unkf];
+  constructor; cbn [with_file st_upd ds_defs ds_ts ds_lastoff ds_hasts ds_unkf ds_unkm ds_file ds_g ss_env ss_ref ss_msgs ss_unkm ss_unkf];
     try assumption.
   exists (ms ++ [m2]). split; [rewrite Hms; now rewrite app_assoc|]. rewrite adds_app, Hadds. exact Ha.
 Qed.
 
-Lemma Inv_data_unknown o pre fb gb ft s ss ts' lo' q' gmn ref2 :
+Lemma Inv_data_unknown o pre fb gb ft s ss hs' ts' lo' q' gmn ref2 :
   Inv o pre fb gb ft s ss ->
-  time_rel ts' lo' ref2 ->
+  time_rel hs' ts' lo' ref2 ->
   Inv o pre fb gb ft
-      (mk_dstate (ds_defs s) ts' lo' (ds_unkf s) (if o_unkm o then bump1 gmn (ds_unkm s) else ds_unkm s) (ds_file s) (ds_g s) q')
+      (mk_dstate (ds_defs s) ts' lo' (ds_unkf s) (if o_unkm o then bump1 gmn (ds_unkm s) else ds_unkm s) (ds_file s) (ds_g s) q' hs')
       (mk_sstate (ss_env ss) ref2 (ss_msgs ss) (count1 gmn (ss_unkm ss)) (ss_unkf ss)).
 Proof.
   intros HI Ht. destruct HI as [H1 H2 H3 H4 H5 H6 H7 H8 H9].
-  constructor; cbn [ds_defs ds_ts ds_lastoff ds_unkf ds_unkm ds_file ds_g ss_env ss_ref ss_msgs ss_unkm ss_unkf];
+  constructor; cbn [ds_defs ds_ts ds_lastoff ds_hasts ds_unkf ds_unkm ds_file ds_g ss_env ss_ref ss_msgs ss_unkm ss_unkf];
     try assumption.
   intros Ho. rewrite Ho. rewrite bump1_count1. now rewrite (H5 Ho).
 Qed.
@@ -99,11 +98,11 @@ Qed.
 (* ------------------------------------------------------------ small moves of the invariant *)
 
 Lemma Inv_time o pre fb gb ft s env ref msgs unkm unkf ts lo ref' :
-  Inv o pre fb gb ft s (mk_sstate env ref msgs unkm unkf) -> time_rel ts lo ref' ->
+  Inv o pre fb gb ft s (mk_sstate env ref msgs unkm unkf) -> time_rel (ds_hasts s) ts lo ref' ->
   Inv o pre fb gb ft (with_time s ts lo) (mk_sstate env ref' msgs unkm unkf).
 Proof.
   intros [H1 H2 H3 H4 H5 H6 H7 H8 H9] Ht.
-  constructor; cbn [with_time ds_defs ds_ts ds_lastoff ds_unkf ds_unkm ds_file ds_g ss_env ss_ref ss_msgs ss_unkm ss_unkf] in *;
+  constructor; cbn [with_time ds_defs ds_ts ds_lastoff ds_hasts ds_unkf ds_unkm ds_file ds_g ss_env ss_ref ss_msgs ss_unkm ss_unkf] in *;
     assumption.
 Qed.
 
@@ -114,7 +113,7 @@ Lemma Inv_unkm o pre fb gb ft s env ref msgs unkm unkf gmn :
 Proof.
   intros [H1 H2 H3 H4 H5 H6 H7 H8 H9].
   destruct (o_unkm o) eqn:Eo;
-    constructor; cbn [with_unkm ds_defs ds_ts ds_lastoff ds_unkf ds_unkm ds_file ds_g ss_env ss_ref ss_msgs ss_unkm ss_unkf] in *;
+    constructor; cbn [with_unkm ds_defs ds_ts ds_lastoff ds_hasts ds_unkf ds_unkm ds_file ds_g ss_env ss_ref ss_msgs ss_unkm ss_unkf] in *;
     try assumption.
   - intros _. rewrite bump1_count1. now rewrite (H5 eq_refl).
   - intros Hc. rewrite Eo in Hc. discriminate.
@@ -126,7 +125,6 @@ Definition tail_k (om : option msg) : P unit := match om with Some m => add_msg 
 Lemma known_tail o pre fb gb ft s1 env ref1 msgs unkm unkf dm d m1 pay dev tl t n lim :
   Inv o pre fb gb ft s1 (mk_sstate env ref1 msgs unkm unkf) -> dm_ok dm d -> known_msg (sd_gmn d) = true ->
   List.length pay = payload_size d -> List.length dev = sd_devsize d -> all_bytes pay = true ->
-  fields_time_ok (sd_be d) (sd_gmn d) (sd_fds d) pay ref1 = true ->
   (n + List.length pay + List.length dev <= lim)%nat ->
   exists s',
     run_a (bind (parse_data_fields o dm true (Some m1)) tail_k) (ast_at (pay ++ dev) tl t n lim) s1 =
@@ -137,17 +135,17 @@ Lemma known_tail o pre fb gb ft s1 env ref1 msgs unkm unkf dm d m1 pay dev tl t 
                    (fold_left (fun acc k => count2 (sd_gmn d) k acc)
                               (snd (denote_fields (sd_be d) (sd_gmn d) (sd_fds d) pay m1 ref1 [])) unkf)).
 Proof.
-  intros HI Hdm Hkn Hlp Hld Hbytes Hok Hlim.
+  intros HI Hdm Hkn Hlp Hld Hbytes Hlim.
   destruct (data_fields_known o dm d unkf Hdm Hkn m1 ref1 s1 pay dev tl t n lim Hlp Hld Hbytes
-              (inv_time _ _ _ _ _ _ _ HI) Hok (inv_unkf _ _ _ _ _ _ _ HI) Hlim)
-    as (ts' & lo' & uf' & q' & Hrun & Ht & Hu1 & Hu2).
+              (inv_time _ _ _ _ _ _ _ HI) (inv_unkf _ _ _ _ _ _ _ HI) Hlim)
+    as (hs' & ts' & lo' & uf' & Hrun & Ht & Hu1 & Hu2).
   rewrite run_bind, Hrun. cbn [rbind tail_k].
   destruct (add_msg_ok ft (fst (fst (denote_fields (sd_be d) (sd_gmn d) (sd_fds d) pay m1 ref1 [])))
-              (ast_at [] tl t (n + List.length pay + List.length dev) lim) (st_upd s1 ts' lo' uf' q')
+              (ast_at [] tl t (n + List.length pay + List.length dev) lim) (st_upd s1 hs' ts' lo' uf')
               (inv_ft _ _ _ _ _ _ _ HI) (inv_inited _ _ _ _ _ _ _ HI))
     as (f' & g' & Ha & Hi' & Hrun2).
   rewrite Hrun2. eexists. split; [reflexivity|].
-  exact (Inv_data_known o pre fb gb ft s1 _ ts' lo' uf' q' f' g' _ _ _ HI Ht Hu1 Ha Hi').
+  exact (Inv_data_known o pre fb gb ft s1 _ hs' ts' lo' uf' f' g' _ _ _ HI Ht Hu1 Ha Hi').
 Qed.
 
 Lemma unknown_tail o dm d s1 pay dev tl t n lim :
@@ -163,9 +161,9 @@ Qed.
 
 (* ------------------------------------------------------------ the compressed-timestamp step *)
 
-Lemma roll_rel r off : off < 32 -> roll r off <> 0 -> time_rel (roll r off) off (Some (roll r off)).
+Lemma roll_rel r off : off < 32 -> time_rel true (roll r off) off (Some (roll r off)).
 Proof.
-  intros Ho Hnz. cbn [time_rel]. split; [reflexivity|]. split; [assumption|].
+  intros Ho. cbn [time_rel]. split; [reflexivity|]. split; [reflexivity|].
   unfold roll. change (2 ^ 32) with 4294967296. lia.
 Qed.
 
@@ -174,15 +172,6 @@ Lemma model_roll ts lo r off : ts = r -> lo = r mod 32 ->
 Proof. intros -> ->. reflexivity. Qed.
 
 (* ------------------------------------------------------------ one data record *)
-
-Definition data_time_ok (s : sstate) (l : N) (off : option N) (pay : list N) : bool :=
-  match lookup_def (ss_env s) l with
-  | None => true
-  | Some d =>
-      let step_ok := match off, ss_ref s with Some o, Some r0 => negb (roll r0 o =? 0) | _, _ => true end in
-      let ref1 := match off, ss_ref s with Some o, Some r0 => Some (roll r0 o) | _, r0 => r0 end in
-      step_ok && (if known_msg (sd_gmn d) then fields_time_ok (sd_be d) (sd_gmn d) (sd_fds d) pay ref1 else true)
-  end.
 
 Lemma sstate_eta ss : ss = mk_sstate (ss_env ss) (ss_ref ss) (ss_msgs ss) (ss_unkm ss) (ss_unkf ss).
 Proof. destruct ss; reflexivity. Qed.
@@ -194,7 +183,7 @@ Lemma data_record_ok o pre fb gb ft s ss b (compressed : bool) l offo pay dev ss
   | None => compressed = false
   | Some off => compressed = true /\ N.land b c_compressedTimeMask = off /\ off < 32
   end ->
-  all_bytes pay = true -> data_time_ok ss l offo pay = true ->
+  all_bytes pay = true ->
   denote_data ss l offo pay dev = Some ss' ->
   (n + List.length pay + List.length dev <= lim)%nat ->
   exists s',
@@ -202,8 +191,8 @@ Lemma data_record_ok o pre fb gb ft s ss b (compressed : bool) l offo pay dev ss
       ROk tt (ast_at [] tl t (n + List.length pay + List.length dev) lim) s' /\
     Inv o pre fb gb ft s' ss'.
 Proof.
-  intros HI Hloc Hoff Hbytes Hok Hden Hlim.
-  unfold denote_data in Hden. unfold data_time_ok in Hok.
+  intros HI Hloc Hoff Hbytes Hden Hlim.
+  unfold denote_data in Hden.
   destruct (lookup_def (ss_env ss) l) as [d|] eqn:El; [|discriminate].
   pose proof (inv_env16 _ _ _ _ _ _ _ HI l d El) as Hl16.
   pose proof (inv_defs _ _ _ _ _ _ _ HI l Hl16) as Hslot. rewrite El in Hslot.
@@ -212,7 +201,6 @@ Proof.
     [discriminate|].
   apply orb_false_elim in Elen. destruct Elen as [Elp Eld].
   apply negb_false_iff, Nat.eqb_eq in Elp. apply negb_false_iff, Nat.eqb_eq in Eld.
-  apply andb_prop in Hok. destruct Hok as [Hstep Hfok].
   pose proof Hslot as (Hbe & Hgmn & Hfds & Hdevs & Hcompat & Hcanon).
   rewrite run_bind. rewrite (data_message_uses_own_slot o b compressed _ s dm) by (rewrite Hloc; exact Enth).
   rewrite <- run_bind.
@@ -227,12 +215,11 @@ Proof.
       unfold get_st. cbn [bind]. rewrite run_get.
       destruct (ss_ref ss) as [r|] eqn:Eref.
       * (* reference present: the rollover rule *)
-        destruct (inv_time _ _ _ _ _ _ _ HI) as (Hts & Hrnz & Hlo). cbn [ss_ref] in *.
-        replace (ds_ts s =? 0) with false by (symmetry; apply N.eqb_neq; now rewrite Hts).
+        destruct (inv_time _ _ _ _ _ _ _ HI) as (Hh & Hts & Hlo). cbn [ss_ref] in *.
+        rewrite Hh. cbn [negb].
         rewrite Hoffb. rewrite (model_roll _ _ r off Hts Hlo).
-        apply negb_true_iff, N.eqb_neq in Hstep.
-        replace (roll r off =? 0) with false by (symmetry; now apply N.eqb_neq).
-        pose proof (Inv_time _ _ _ _ _ _ _ _ _ _ _ _ _ _ HI (roll_rel r off Hoff32 Hstep)) as HI1.
+        pose proof (roll_rel r off Hoff32) as Hrr. rewrite <- Hh in Hrr.
+        pose proof (Inv_time _ _ _ _ _ _ _ _ _ _ _ _ _ _ HI Hrr) as HI1.
         unfold put_st. cbn [bind]. rewrite run_put.
         destruct (get_field (sd_gmn d) c_fieldNumTimeStamp) as [p|] eqn:Eg.
         -- destruct (entry_sound _ _ _ Eg) as (md & Em & F).
@@ -244,7 +231,7 @@ Proof.
            rewrite Hty. cbn [set_time].
            destruct (known_tail o pre fb gb ft _ _ _ _ _ _ dm d
                        (msg_set m0 (pf_sindex p) (decode_date_time (roll r off))) pay dev tl t n lim
-                       HI1 Hslot Ekn Elp Eld Hbytes Hfok Hlim) as (s' & Hrun & HI').
+                       HI1 Hslot Ekn Elp Eld Hbytes Hlim) as (s' & Hrun & HI').
            exists s'. split; [exact Hrun|].
            change (msg_set m0 (pf_sindex p) (decode_date_time (roll r off)))
              with (mk_msg (m_num m0) (set_at (pf_sindex p) (time_of (roll r off)) (m_fields m0))) in HI'.
@@ -252,23 +239,21 @@ Proof.
            destruct (denote_fields (sd_be d) (sd_gmn d) (sd_fds d) pay _ _ []) as [[m2 ref2] unl].
            cbn [fst snd] in HI'. inversion Hden; subst ss'. exact HI'.
         -- destruct (known_tail o pre fb gb ft _ _ _ _ _ _ dm d m0 pay dev tl t n lim
-                       HI1 Hslot Ekn Elp Eld Hbytes Hfok Hlim) as (s' & Hrun & HI').
+                       HI1 Hslot Ekn Elp Eld Hbytes Hlim) as (s' & Hrun & HI').
            exists s'. split; [exact Hrun|]. unfold roll in HI'.
            destruct (denote_fields (sd_be d) (sd_gmn d) (sd_fds d) pay _ _ []) as [[m2 ref2] unl].
            cbn [fst snd] in HI'. inversion Hden; subst ss'. exact HI'.
       * (* no reference yet: the record stays unstamped *)
         pose proof (inv_time _ _ _ _ _ _ _ HI) as Hts. cbn [ss_ref time_rel] in Hts. rewrite Hts.
-        change (0 =? 0) with true. cbv iota.
+        cbn [negb].
         destruct (known_tail o pre fb gb ft _ _ _ _ _ _ dm d m0 pay dev tl t n lim
-                    HI Hslot Ekn Elp Eld Hbytes Hfok Hlim) as (s' & Hrun & HI').
+                    HI Hslot Ekn Elp Eld Hbytes Hlim) as (s' & Hrun & HI').
         exists s'. split; [exact Hrun|].
         destruct (denote_fields (sd_be d) (sd_gmn d) (sd_fds d) pay _ _ []) as [[m2 ref2] unl].
         cbn [fst snd] in HI'. inversion Hden; subst ss'. exact HI'.
     + subst compressed. cbn [negb].
-      assert (Hfok' : fields_time_ok (sd_be d) (sd_gmn d) (sd_fds d) pay (ss_ref ss) = true)
-        by (destruct (ss_ref ss); exact Hfok).
       destruct (known_tail o pre fb gb ft _ _ _ _ _ _ dm d m0 pay dev tl t n lim
-                  HI Hslot Ekn Elp Eld Hbytes Hfok' Hlim) as (s' & Hrun & HI').
+                  HI Hslot Ekn Elp Eld Hbytes Hlim) as (s' & Hrun & HI').
       exists s'. split; [exact Hrun|].
       assert (Hd : denote_fields (sd_be d) (sd_gmn d) (sd_fds d) pay m0
                      (match ss_ref ss with Some r => Some r | None => None end) [] =
@@ -290,18 +275,17 @@ Proof.
       match goal with |- exists s', run_a (bind (bind _ ?k) tail_k) _ _ = _ /\ _ => rewrite (Hpre k) end.
       cbn [negb]. unfold get_st. cbn [bind]. rewrite run_get.
       destruct (ss_ref ss) as [r|] eqn:Eref.
-      * destruct (inv_time _ _ _ _ _ _ _ HIu) as (Hts & Hrnz & Hlo). cbn [ss_ref] in *.
-        replace (ds_ts su =? 0) with false by (symmetry; apply N.eqb_neq; now rewrite Hts).
+      * destruct (inv_time _ _ _ _ _ _ _ HIu) as (Hh & Hts & Hlo). cbn [ss_ref] in *.
+        rewrite Hh. cbn [negb].
         rewrite Hoffb. rewrite (model_roll _ _ r off Hts Hlo).
-        apply negb_true_iff, N.eqb_neq in Hstep.
-        replace (roll r off =? 0) with false by (symmetry; now apply N.eqb_neq).
-        pose proof (Inv_time _ _ _ _ _ _ _ _ _ _ _ _ _ _ HIu (roll_rel r off Hoff32 Hstep)) as HI1.
+        pose proof (roll_rel r off Hoff32) as Hrr. rewrite <- Hh in Hrr.
+        pose proof (Inv_time _ _ _ _ _ _ _ _ _ _ _ _ _ _ HIu Hrr) as HI1.
         unfold put_st. cbn [bind]. rewrite run_put.
         rewrite (unknown_no_field _ c_fieldNumTimeStamp Ekn).
         rewrite (unknown_tail o dm d _ pay dev tl t n lim Hslot Ekn Elp Eld Hlim).
         eexists. split; [reflexivity|]. inversion Hden; subst ss'. exact HI1.
       * pose proof (inv_time _ _ _ _ _ _ _ HIu) as Hts. cbn [ss_ref time_rel] in Hts. rewrite Hts.
-        change (0 =? 0) with true. cbv iota.
+        cbn [negb].
         rewrite (unknown_tail o dm d _ pay dev tl t n lim Hslot Ekn Elp Eld Hlim).
         eexists. split; [reflexivity|]. inversion Hden; subst ss'. exact HIu.
     + subst compressed.
